@@ -205,3 +205,33 @@ Qed.
 Theorem gen_Token_is_next_eq : forall t : Token,
   gen_Token_is_next t = Ret (match prim_to_index t with Ok Index_Next => true | _ => false end).
 Proof. intros t. unfold gen_Token_is_next. destruct (prim_to_index t) as [[n|]|e]; reflexivity. Qed.
+
+(* ==== InvalidCharacterError: what the error of Index::from_str carries and what its accessors return =======================
+   No well-formedness hypothesis: read off the regenerated parser.  The error keeps the input, its offset is the CHARACTER index of
+   the first non-digit character, and char() - `source.chars().nth(offset).expect(..)` - never panics on it and returns that very
+   character, which is not an ASCII digit. *)
+Theorem gen_invalid_character_error_accessors : forall (s : str) (e : InvalidCharacterError),
+  gen_Index_from_str s = Ret (Err (ParseIndexError_InvalidCharacter e)) ->
+  gen_InvalidCharacterError_source e = Ret s /\
+  chars_positionN (fun c => negb (is_digit c)) s = Some (InvalidCharacterError_offset e) /\
+  gen_InvalidCharacterError_offset e = Ret (InvalidCharacterError_offset e) /\
+  exists c, gen_InvalidCharacterError_char e = Ret c /\
+            nth_N (str_chars s) (InvalidCharacterError_offset e) = Some c /\ is_digit c = false.
+Proof.
+  intros s e H. unfold gen_Index_from_str in H.
+  destruct (str_eqb s [45]); [discriminate|].
+  destruct (starts_with s [48] && negb (str_eqb s [48])); [discriminate|].
+  destruct (chars_positionN (fun c => negb (is_digit c)) s) as [off|] eqn:P.
+  - inversion H; subst e. cbn [InvalidCharacterError_source InvalidCharacterError_offset].
+    split; [reflexivity|]. split; [reflexivity|]. split; [reflexivity|].
+    unfold gen_InvalidCharacterError_char. cbn [InvalidCharacterError_source InvalidCharacterError_offset].
+    unfold chars_positionN, positionN in P.
+    destruct (position (fun c => negb (is_digit c)) (str_chars s)) as [i|] eqn:Q; cbn [option_map] in P; [|discriminate].
+    inversion P; subst off.
+    destruct (position_some _ _ _ Q) as (a & b & r & Hs & Hl & Hb & _).
+    rewrite Hs. replace (N.of_nat i) with (len a) by (unfold len; rewrite Hl; reflexivity).
+    rewrite nth_N_app_len. exists b. repeat split. apply Bool.negb_true_iff, Hb.
+  - exfalso. destruct (prim_parse_usize s) as [n|pe]; cbn [gen_ParseIndexError_from] in H.
+    + discriminate.
+    + unfold gen_ParseIndexError_from in H. discriminate.
+Qed.
